@@ -5,13 +5,13 @@ go 1.23
 require (
 	github.com/go-gts/gts v0.0.0
 	github.com/go-pars/pars v1.1.6
+	github.com/go-wrap/wrap v1.0.3
 )
 
 require (
 	github.com/go-ascii/ascii v1.0.3 // indirect
 	github.com/go-flip/flip v1.1.0 // indirect
 	github.com/go-gts/flags v0.0.12 // indirect
-	github.com/go-wrap/wrap v1.0.3 // indirect
 )
 
 replace github.com/go-gts/gts => /repo
